@@ -123,13 +123,21 @@ func DrawCSV(t *rapid.T, b CSVBounds) *CSVCase {
 	c.Delim = delims[rapid.IntRange(0, len(delims)-1).Draw(t, "delim")]
 	ncols := rapid.IntRange(1, b.MaxCols).Draw(t, "ncols")
 	nrows := rapid.IntRange(0, b.MaxRows).Draw(t, "nrows")
+	// many columns of the same name: the renaming counter goes beyond one digit
+	manyDups := Rare(t, "manydups", 150)
+	if manyDups {
+		ncols = rapid.IntRange(11, 14).Draw(t, "manydupcols")
+		if nrows > 3 {
+			nrows = 3
+		}
+	}
 	big := false
 	bigOdds := uint64(60)
 	if b.BigRare {
 		bigOdds = 1500
 	}
 	growAfter, growBy := 0, 0
-	if b.BigRows && Rare(t, "big", bigOdds) {
+	if b.BigRows && !manyDups && Rare(t, "big", bigOdds) {
 		// the RowCountHint path: >= 1000 rows; sometimes far more rows than the
 		// hint promises and cells that get longer after the first 1000 rows, so
 		// that the pre-sized column buffers are outgrown
@@ -146,11 +154,15 @@ func DrawCSV(t *rapid.T, b CSVBounds) *CSVCase {
 	quoteMode := rapid.IntRange(0, 2).Draw(t, "quotemode") // 0 when needed, 1 always, 2 per cell
 
 	// header
-	odd := !c.UseHeaders && rapid.IntRange(0, 12).Draw(t, "oddheader") == 0
+	// empty and repeated names, in the header row or in the Headers option
+	odd := manyDups || rapid.IntRange(0, 12).Draw(t, "oddheader") == 0
 	seen := map[string]bool{}
 	for i := 0; i < ncols; i++ {
 		var name string
-		if odd && rapid.IntRange(0, 2).Draw(t, "oddname") == 0 {
+		if manyDups && i > 0 && (i < 11 || rapid.Bool().Draw(t, "dupmore")) {
+			name = c.Names[0]
+			c.OddHeader = true
+		} else if odd && !manyDups && rapid.IntRange(0, 2).Draw(t, "oddname") == 0 {
 			switch k := rapid.IntRange(0, 2).Draw(t, "oddkind"); {
 			case k == 0 || i == 0:
 				name = ""
@@ -180,7 +192,7 @@ func DrawCSV(t *rapid.T, b CSVBounds) *CSVCase {
 		c.Names = append(c.Names, name)
 	}
 	if c.OddHeader {
-		c.Rename = rapid.Bool().Draw(t, "rename")
+		c.Rename = manyDups || rapid.Bool().Draw(t, "rename")
 		if rapid.Bool().Draw(t, "usealias") {
 			c.Alias = "missing"
 		}
